@@ -91,6 +91,9 @@ def handle (st : St) (op : String) (args : List String) (impl : Option String) :
     -- any interleaving of whole operations is a timed history of the sequential model
     -- (`window_ops_atomic`), in which no live sample is lost, duplicated or invented (`window_spec`)
     some (st, { model := "lost=0,dup=0,phantom=0" })
+  | "cconc", [_, _, _] =>
+    -- `counter_sum`: a counter is the sum of its increments in every interleaving
+    some (st, { model := "wrong=0" })
   | "getn", [gs] =>
     -- several metrics in one Stats: each export is that of its own samples
     let one (vs : String) : String :=
